@@ -550,8 +550,15 @@ def part_output_decision(chk):
     exprs, wants, descr = [], [], []
     cwd = os.getcwd()
     os.chdir(base)
+    saved_gen = arch.generate_archive_name
+    arch.generate_archive_name = lambda: "cond-archive+pinned.tar.gz"        # the clock, pinned: two archives "within the same second"
+    open(os.path.join(base, "link-to-dir", "cond-archive+pinned.tar.gz"), "w").write("made a moment ago")     # = adir/...
     try:
-        for raw in raws:
+        for raw in raws + [None, "adir/sub", "cond-out"]:
+            if len(descr) == len(raws):             # second pass: the generated name is taken in cond-out as well
+                open(os.path.join(base, "cond-out", "cond-archive+pinned.tar.gz"), "w").write("made a moment ago")
+            gen_in = ctx.output_path if raw is None else pathlib.Path(raw)
+            gen_exists = os.path.exists(os.path.join(str(gen_in), "cond-archive+pinned.tar.gz")) if (raw is None or os.path.isdir(raw)) else False
             if raw is None:
                 probe = (False, False, False, False, False)
             else:
@@ -576,11 +583,13 @@ def part_output_decision(chk):
                 code = 4
             chk.coverage["evaluations"] += 1
             chk.count("output-decision", {0: "generated in cond-out", 1: "generated in the given directory", 2: "the given path", 3: "refused: exists", 4: "refused: no such directory"}.get(code, "other"))
-            exprs.append("decision_code (handle_output_path {| o_given := %s; o_exists := %s; o_is_dir := %s; o_parent_exists := %s; o_parent_is_dir := %s |})" % tuple(cbool(b) for b in probe))
+            probe = tuple(probe) + (gen_exists,)
+            exprs.append("decision_code (handle_output_path {| o_given := %s; o_exists := %s; o_is_dir := %s; o_parent_exists := %s; o_parent_is_dir := %s; o_gen_exists := %s |})" % tuple(cbool(b) for b in probe))
             wants.append(code)
             descr.append((raw, probe, code))
     finally:
         os.chdir(cwd)
+        arch.generate_archive_name = saved_gen
     if chk.coq.model_ok:
         ok, bad, rawout = run_packed_cases("From Conductor Require Import Lib.Cmp Model.ArchiveOut.", "", [clist(exprs)], [wants])[0]
         if not ok:
@@ -631,6 +640,51 @@ def names_that_look_like_options(chk):
         chk.violation("impl-violation", "tasks and packages whose names start with '-': %s" % msg, {"input": {"kind": "dash-names", "files": files}, "oracle_verdict": msg}, match_key={"part": "dash-names"}, size=3)
     if not problems:
         chk.coverage["traces_validated_against_impl"] += 3
+
+
+def archives_within_the_same_second(chk):
+    """The names Conductor generates for archives (`cond archive` without -o, or with -o <directory>) carry the time to the
+    second.  With the clock pinned (generate_archive_name replaced in the forked child: the only intervention) a second
+    `cond archive` "within the same second" -- one that fails because nothing is archivable, one that would succeed -- must
+    leave the archive made a moment ago byte for byte as it is; the later one is refused.  (D43: the generated name was
+    never tested for existence: the failing command's handler unlinked the earlier archive, a succeeding one overwrote it.)"""
+    import hashlib
+
+    def pin():
+        import conductor.cli.archive as a
+
+        a.generate_archive_name = lambda: "cond-archive+pinned.tar.gz"
+
+    files = {"COND": 'run_experiment(name="e", run="echo e > $COND_OUT/r")\nrun_experiment(name="f", run="echo f > $COND_OUT/r")\nrun_experiment(name="never", run="true")\n'}
+    digest = lambda p: hashlib.sha1(open(p, "rb").read()).hexdigest() if os.path.isfile(p) else None
+    for where_ in ("cond-out", "-o directory"):
+        root = implrun.make_project(files)
+        os.makedirs(os.path.join(root, "store"))
+        for t in ("//:e", "//:f"):
+            implrun.run_cond(["run", t], root)
+        extra = [] if where_ == "cond-out" else ["-o", "store"]
+        target = os.path.join(root, "cond-out" if where_ == "cond-out" else "store", "cond-archive+pinned.tar.gz")
+        first = implrun.run_cond(["archive", "//:e"] + extra, root, pre=pin)
+        h0 = digest(target)
+        problems = []
+        if first.code != 0 or h0 is None:
+            problems.append("harness: the first archive failed: %r" % (first,))
+        for what, argv in (("an archive of a task without outputs", ["archive", "//:never"] + extra), ("an archive of another task", ["archive", "//:f"] + extra), ("the same archive again", ["archive", "//:e"] + extra)):
+            if problems:
+                break
+            r = implrun.run_cond(argv, root, pre=pin)
+            chk.coverage["evaluations"] += 1
+            chk.count("same-second", where_)
+            h1 = digest(target)
+            if h1 != h0:
+                problems.append("%s made within the same second (`cond %s`, exit %s) %s the archive made a moment ago (%s)" % (what, " ".join(argv), r.code, "removed" if h1 is None else "replaced", os.path.relpath(target, root)))
+            elif r.code == 0:
+                problems.append("`cond %s` reports success although the generated name was taken" % " ".join(argv))
+        for msg in problems[:2]:
+            chk.violation("impl-violation", "two `cond archive` within the same second (generated name in %s): %s" % (where_, msg),
+                          {"input": {"kind": "same-second", "where": where_, "files": files}, "oracle_verdict": msg}, match_key={"part": "same-second"}, size=3)
+        if not problems:
+            chk.coverage["traces_validated_against_impl"] += 3
 
 
 def refused_archives_change_nothing(chk):
@@ -738,6 +792,7 @@ def run(tier, seed, replay=None):
     graphs, ex_b, w_b, nt_b = part_traverse(chk, tier)
     _jobs, ex_c, w_c, meta, nt_c = part_e2e(chk, tier)
     refused_archives_change_nothing(chk)
+    archives_within_the_same_second(chk)
     names_that_look_like_options(chk)
     part_output_decision(chk)
     au.equal_timestamps_across_tasks(chk, "C11")
